@@ -20,12 +20,13 @@ DRIVER = "drv_fermi"
 LEVEL_TEXT = ("Lean 4 theorems, for every lattice size L, all sites, all operator patterns and all coefficient arrays, about a "
               "hand-written executable model of field_operator.py (Jordan-Wigner reference matrices built by the code's own "
               "left-nested Kronecker loop with the sign string on later sites, nditer-ordered coefficient loop with zero skipping, "
-              "adjoint / outer product / concatenation of terms, structural Hermiticity flag); the model is tied to the code by "
+              "adjoint / outer product / concatenation of terms, Hermiticity flag = structural test + np.allclose decided exactly); the model is tied to the code by "
               "differential runs with exact comparison of coefficient arrays and matrices (dyadic Gaussian rationals).")
 ASSUMPTIONS = ["coefficients are exact dyadic Gaussian rationals of small magnitude, so that every float operation of the implementation "
                "(products of up to three coefficients, sums of matrix entries) is exact and the comparison is an equality",
-               "np.allclose in FieldOperatorTerm.is_hermitian (atol 1e-8, rtol 1e-5) is modelled by exact equality; generated coefficients "
-               "are either exactly conjugate-symmetric or differ by at least 1/8, where the two coincide",
+               "np.allclose in FieldOperatorTerm.is_hermitian evaluates |a-b| <= atol + rtol*|b| in double precision, the model decides the same "
+               "inequality exactly over the rationals (tolerances = the exact values of NumPy's default doubles, read from np.allclose's signature); "
+               "generated coefficient pairs keep a relative distance >= 1e-6 from the threshold, where the two evaluations cannot differ",
                "np.nditer visits a non-C-contiguous array (the transposed view held by an adjoint term) in memory order, the model always "
                "in C order; the sum is order-independent in exact arithmetic, and the RuntimeError branch is unreachable through the constructors",
                "scipy.sparse kron / @ / + / conj().T are modelled by their index formulas (dense integer matrices), not verified",
@@ -33,7 +34,7 @@ ASSUMPTIONS = ["coefficients are exact dyadic Gaussian rationals of small magnit
 RULE = ("CAR / vacuum / number-operator expressions for every pair of sites of every L <= 5; single-term operators for every L <= 5 (quick: 4), "
         "every operator count 0..4 and every create/annihilate pattern with dense, sparse, zero, real and complex coefficient arrays; "
         "multi-term operators, adjoints, sums and products of 1..3 operators; Hermiticity-flag queries on constructed Hermitian terms, "
-        "near misses and rectangular arrays; a malformed stream (wrong ndim, foreign operator types, several or non-fermionic fields, "
+        "near misses, perturbations inside and around the np.allclose tolerance band, and rectangular arrays; a malformed stream (wrong ndim, foreign operator types, several or non-fermionic fields, "
         "out-of-range and zero-sized coefficient arrays); distinct = distinct case dicts; a case is non-trivial if the implementation "
         "returned a matrix with at least one non-zero entry or a flag")
 TECHNIQUE = "Lean 4 theorems about a model of the code + correspondence tie checked on every run"
@@ -41,6 +42,15 @@ TECHNIQUE = "Lean 4 theorems about a model of the code + correspondence tie chec
 _ctx = {}
 CREATE, ANNIHIL = 3, 4
 PT_QUBIT, PT_BOSON, PT_FERMION, PT_MAJORANA = 1, 2, 3, 4
+
+
+def allclose_defaults():
+    import inspect
+    sig = inspect.signature(np.allclose)
+    return float(sig.parameters["atol"].default), float(sig.parameters["rtol"].default)
+
+
+ATOL, RTOL = allclose_defaults()
 
 
 def setup():
@@ -210,8 +220,8 @@ def impl(case):
 
 def model_req(case):
     r = {k: v for k, v in case.items() if k not in ("expect", "tag")}
-    if case["op"] == "fop.herm":
-        r["a"] = case["a"]
+    if case["op"] in ("fop.herm", "fterm.herm"):
+        r["atol"], r["rtol"] = qstr(ATOL), qstr(RTOL)      # exact values of NumPy's default doubles
     return r
 
 
@@ -242,6 +252,15 @@ def compare(case, o, m):
     if "harness_exception" in o:
         return "harness exception: " + o["harness_exception"]
     op = case["op"]
+    if op in ("fop.herm", "fterm.herm"):
+        pub = {k: v for k, v in o.items() if not k.startswith("_")}
+        if pub != m["tol"]:
+            return f"is_hermitian: impl {pub} != model (allclose tolerances) {m['tol']}"
+        if m["exact"] == {"val": True} and m["tol"] != {"val": True}:
+            return "model: exactly Hermitian coefficients not flagged with tolerances"
+        if case.get("tag") == "exact" and m["exact"] != m["tol"]:
+            return f"model: exact flag {m['exact']} != tolerance flag {m['tol']} on coefficients that avoid the tolerance band"
+        return None
     if ("raised" in o) != ("raised" in m):
         return f"impl {({k: v for k, v in o.items() if not k.startswith('_')})} != model {m}"
     if "raised" in o:
@@ -400,10 +419,18 @@ def oracle(case, o):
     if op in ("fterm.herm", "fop.herm"):
         M = o.get("_mat")
         if o.get("val") is True and M is not None:
+            # np.allclose lets |c[idx] - conj(c[rev idx])| be as large as atol + rtol |c|; every ladder string has entries
+            # in {0, +-1}, so the matrix may deviate from its adjoint by at most the sum of these allowances
+            # (theorem C10_hermitianFlag_tol); anything beyond that is an unsound flag
+            terms = [case["t"]] if op == "fterm.herm" else case["a"]["terms"]
+            bound = 1e-12
+            for t in terms:
+                A = coeff_array(t["coeffs"], "complex")
+                bound += ATOL * A.size + RTOL * float(np.abs(A).sum())
             dev = np.abs(M - M.conj().T).max() if M.size else 0.0
-            if dev > 1e-6:
+            if dev > bound:
                 which = "term" if op == "fterm.herm" else "operator"
-                bad.append((f"C10:is_hermitian:flag-unsound:{which}", f"flagged Hermitian but max |M - M^H| = {dev}"))
+                bad.append((f"C10:is_hermitian:flag-unsound:{which}", f"flagged Hermitian but max |M - M^H| = {dev} (allclose allowance {bound:.3g})"))
         return bad
     return bad
 
@@ -487,6 +514,31 @@ def hermitian_term(rng, L, half, cplx):
     return {"ops": [[0, o] for o in pattern], "coeffs": canon_coeffs(H)}
 
 
+def tol_margin_ok(c):
+    """no entry of `coeffs` vs `coeffs.conj().T` sits within 1e-6 (relative) of the allclose threshold"""
+    A = coeff_array(c, "complex")
+    B = A.conj().T
+    if A.shape != B.shape:
+        return True
+    d, thr = np.abs(A - B), ATOL + RTOL * np.abs(B)
+    return not np.any(np.abs(d - thr) <= 1e-6 * thr)
+
+
+def perturb(rng, t, delta):
+    """move one coefficient by the dyadic `delta` in its real or imaginary part"""
+    n = size_of(t["coeffs"]["shape"])
+    kk = rng.randrange(n)
+    cur = dict((e[0], e[1]) for e in t["coeffs"]["nz"])
+    v = cur.get(kk, ["0/1", "0/1"])
+    if rng.random() < 0.5:
+        v = [v[0], qstr(unq(v[1]) + delta)]
+    else:
+        v = [qstr(unq(v[0]) + delta), v[1]]
+    cur[kk] = v
+    t["coeffs"]["nz"] = sorted([[a, b] for a, b in cur.items() if (unq(b[0]) != 0 or unq(b[1]) != 0)])
+    return t
+
+
 def gen_cases(tier, rng):
     thorough = tier == "thorough"
     Lmax = 5
@@ -522,6 +574,22 @@ def gen_cases(tier, rng):
                             if rng.random() < 0.7:
                                 terms = [t, rand_term(rng, L, k=1)] if rng.random() < 0.5 else [rand_term(rng, L, k=2), t]
                         yield {"op": "fop.mat", "fields": F, "e": {"t": terms}}
+    # --- 3a. small deterministic adjoint / sum / product cases first (so that a failing input is reported small)
+    W = {"id": 0, "ptype": PT_FERMION, "nsites": 3}
+    yield {"op": "fterm.herm", "fields": [W], "tag": "regression 65e5989: rectangular array equal to its broadcast transpose",
+           "t": {"ops": [[0, CREATE], [0, ANNIHIL]], "coeffs": {"shape": [1, 3], "nz": [[k, ["1/1", "0/1"]] for k in range(3)]}}}
+    for L in (1, 2):
+        F = [fld(L)]
+        for pattern in itertools.product([CREATE, ANNIHIL], repeat=2):
+            t = {"ops": [[0, o] for o in pattern], "coeffs": {"shape": [L, L], "nz": [[k, [qstr(Fraction(k + 1)), qstr(Fraction(k % 2, 2))]] for k in range(L * L)]}}
+            a = {"t": [t]}
+            b = {"t": [{"ops": [[0, pattern[1]]], "coeffs": {"shape": [L], "nz": [[k, [qstr(Fraction(1, k + 1)), "0/1"]] for k in range(L)]}}]}
+            yield {"op": "fop.adjoint", "fields": F, "e": {"adj": a}}
+            yield {"op": "fop.add", "fields": F, "e": {"add": [a, b], "plus": True}}
+            yield {"op": "fop.add", "fields": F, "e": {"add": [b, a, b]}}
+            yield {"op": "fop.mul", "fields": F, "e": {"mul": [a, b]}}
+            yield {"op": "fop.mul", "fields": F, "e": {"mul": [b, a]}}
+            yield {"op": "fop.adjoint", "fields": F, "e": {"adj": {"mul": [a, b]}}}
     # --- 3. multi-term operators, adjoints, sums and products of 1..3 operators
     for _ in range(1500 if thorough else 220):
         L = rng.randint(1, Lmax if thorough else 4)
@@ -562,18 +630,20 @@ def gen_cases(tier, rng):
         half = [rng.choice([CREATE, ANNIHIL]) for _ in range(rng.randint(0, 2))]
         if r < 0.35:
             t = hermitian_term(rng, L, half, rng.random() < 0.6)
-        elif r < 0.6:                      # near miss: one coefficient moved by >= 1/8
-            t = hermitian_term(rng, L, half, rng.random() < 0.6)
-            n = size_of(t["coeffs"]["shape"])
-            kk = rng.randrange(n)
-            cur = dict((e[0], e[1]) for e in t["coeffs"]["nz"])
-            v = cur.get(kk, ["0/1", "0/1"])
-            if rng.random() < 0.5 or not half:
-                v = [v[0], qstr(unq(v[1]) + Fraction(rng.choice([-3, -1, 1, 2]), 8))]
+        elif r < 0.5:                      # near miss: one coefficient moved by >= 1/8
+            t = perturb(rng, hermitian_term(rng, L, half, rng.random() < 0.6), Fraction(rng.choice([-3, -1, 1, 2]), 8))
+        elif r < 0.7:                      # inside / around the np.allclose tolerance band (1e-8 + 1e-5 |b|)
+            for _ in range(20):
+                t = perturb(rng, hermitian_term(rng, L, half, rng.random() < 0.6),
+                            Fraction(rng.choice([-1, 1]), 2 ** rng.choice([40, 30, 27, 24, 20, 17, 15, 14, 12, 10])))
+                if tol_margin_ok(t["coeffs"]):
+                    break
             else:
-                v = [qstr(unq(v[0]) + Fraction(rng.choice([-3, -1, 1, 2]), 8)), v[1]]
-            cur[kk] = v
-            t["coeffs"]["nz"] = sorted([[a, b] for a, b in cur.items() if (unq(b[0]) != 0 or unq(b[1]) != 0)])
+                continue
+            yield {"op": "fterm.herm", "fields": F, "t": t, "tag": "tolerance"}
+            if rng.random() < 0.3:
+                yield {"op": "fop.herm", "fields": F, "a": {"terms": [hermitian_term(rng, L, [CREATE], True), t]}, "tag": "tolerance"}
+            continue
         elif r < 0.8:                      # arbitrary pattern, arbitrary coefficients
             t = rand_term(rng, L, k=rng.randint(0, 4), maxcoef=100)
         else:                              # rectangular coefficient arrays (axes shorter than L, length one, zero-sized)
@@ -592,11 +662,11 @@ def gen_cases(tier, rng):
             else:
                 c = rand_coeffs(rng, shape, "dense", rng.random() < 0.5)
             t = {"ops": [[0, o] for o in pattern], "coeffs": c}
-        yield {"op": "fterm.herm", "fields": F, "t": t}
+        yield {"op": "fterm.herm", "fields": F, "t": t, "tag": "exact"}
         if rng.random() < 0.3:
             others = [hermitian_term(rng, L, [rng.choice([CREATE, ANNIHIL])], True) for _ in range(rng.randint(0, 2))]
             terms = others + [t] if rng.random() < 0.5 else [t] + others
-            yield {"op": "fop.herm", "fields": F, "a": {"terms": terms}}
+            yield {"op": "fop.herm", "fields": F, "a": {"terms": terms}, "tag": "exact"}
     yield {"op": "fop.herm", "fields": [fld(2)], "a": {"terms": []}}
     # --- 5. malformed / refused inputs
     for _ in range(600 if thorough else 150):
@@ -661,6 +731,8 @@ def run(rep, tier, rng, drv):
             rep.count(c["op"])
             if "expect" in c:
                 rep.count("expect:" + c["expect"]["kind"])
+            if c.get("tag") == "tolerance":
+                rep.count("is_hermitian inside/around the allclose tolerance band")
             yield c
 
     def impl_counted(c):
